@@ -121,7 +121,7 @@ void h_poly_both(void)
         objects and the post-loop obligation got no answer in 250 s / 17 GB with MiniSat, z3 and cvc5; a heap block of
         symbolic size n <= 32 with the loop unwound needs > 12 GB as well.) ---- */
 #define SMAX 16
-#define QS(i) ND_SET(s[i], s##i, double);
+#define QS(i) ND(a_real, s##i, double); s[i] = s##i; /* named scalars: the native replay takes inputs by variable name */
 #define SWAP_K(K)                                                                                       \
     {                                                                                                   \
         a_real a[K], b[K];                                                                              \
@@ -166,11 +166,15 @@ void h_poly_swap_n(void)
     a_real *a = (a_real *)malloc(n ? n * sizeof(a_real) : sizeof(a_real));
     ASSUME(a != 0);
     a_size m = n ? n - 1 - w : 0;
+    ND(a_real, ew, double); /* content of the witness element and of its mirror element; the rest of the fresh block is arbitrary */
+    ND(a_real, em, double);
+    ASSUME(!ISNAN(ew) && !ISNAN(em));
+    a[w] = ew;
+    a[m] = em;
     verif_n = n;
     verif_w = w;
     verif_ow = a[w];
     verif_om = a[m];
-    ASSUME(!ISNAN(verif_ow) && !ISNAN(verif_om));
     a_poly_swap(a, n);
     ASSERT(a[w] == verif_om, "swap: element w becomes the former element n-1-w (any n incl. 0, 1, 2; witness w)");
     ASSERT(a[m] == verif_ow, "swap: element n-1-w becomes the former element w (any n incl. 0, 1, 2; witness w)");
